@@ -202,7 +202,12 @@ func (c *AConf) State(device bool) *State {
 type GenOpts struct {
 	Decorate bool
 	Ties     bool
+	// TwoVsys forces two vsys in target and device (default: one in five).
+	TwoVsys bool
 }
+
+// forceTwoVsys is set by GenPair for the duration of one generation.
+var forceTwoVsys bool
 
 var (
 	hostIPs = []string{"10.1.1.10", "10.1.1.20", "10.1.1.30", "10.1.2.40", "10.2.2.2"}
@@ -338,7 +343,7 @@ func genRule(t *rapid.T, v *AVsys, name, label string) *ARule {
 func GenTarget(t *rapid.T, label string) *AConf {
 	c := &AConf{DevName: "localhost.localdomain", Hostname: "router"}
 	nv := 1
-	if rapid.IntRange(0, 4).Draw(t, label+"twoVsys") == 0 {
+	if rapid.IntRange(0, 4).Draw(t, label+"twoVsys") == 0 || forceTwoVsys {
 		nv = 2
 	}
 	for i := 0; i < nv; i++ {
@@ -635,6 +640,8 @@ type Pair struct {
 
 func GenPair(t *rapid.T, o GenOpts) *Pair {
 	p := &Pair{}
+	forceTwoVsys = o.TwoVsys
+	defer func() { forceTwoVsys = false }()
 	p.B = GenTarget(t, "B")
 	for _, v := range p.B.Vsys {
 		v.prune()
